@@ -328,6 +328,8 @@ pub fn exec_load(ctx: &mut Ctx, case: &LoadCase, class: &str, for_prop: &str) {
                         let (key, _) = crate::ctx::panic_key("load", p);
                         let mut used = case.clone();
                         if ctx.seen(&key) == 0 && !ctx.replay && case.bytes.len() < 20000 {
+                            let (_, d0) = crate::ctx::panic_key("load", p);
+                            ctx.violation_pending(&key, d0, serde_json::to_value(case).unwrap());
                             let shr = shrink_list(&case.bytes, 150, |cand| {
                                 let c = LoadCase {
                                     api: case.api.clone(),
@@ -400,30 +402,16 @@ impl Prop for C02 {
         self.n_cross = (self.seeds.len() * ALL_EXTS.len()) as u64;
         self.n_grammar = ctx.tier.pick(40_000, 1_000_000);
         self.n_nulfree = self.seeds.len() as u64 * NULFREE_FROM.len() as u64 * (40 * 3 + 16);
-        self.num_runs.clear();
-        for (si, s) in self.seeds.iter().enumerate() {
-            let mut runs = Vec::new();
-            let mut i = 0;
-            while i < s.bytes.len() {
-                if s.bytes[i].is_ascii_digit() {
-                    let a = i;
-                    while i < s.bytes.len() && s.bytes[i].is_ascii_digit() {
-                        i += 1;
-                    }
-                    runs.push((si, a, i));
-                } else {
-                    i += 1;
-                }
-            }
-            // at most 150 runs per seed, spread evenly (the first 30 always: header lines)
-            let n = runs.len();
-            for (j, r) in runs.into_iter().enumerate() {
-                if j < 30 || n <= 150 || j % (n / 120 + 1) == 0 {
-                    self.num_runs.push(r);
+        self.num_runs = files::decimal_runs(&self.seeds);
+        self.n_textnum = self.num_runs.len() as u64 * TEXT_NUMBERS.len() as u64;
+        if std::env::var_os("VERIF_C02_SEEDS").is_some() {
+            let base = self.n_trunc + self.n_flip + self.n_cross + self.n_grammar + self.n_nulfree;
+            for (i, (si, a, b)) in self.num_runs.iter().enumerate() {
+                if self.seeds[*si].api.starts_with("pal") {
+                    eprintln!("text-number k={} seed={} run {a}..{b} = {:?}", base + i as u64 * TEXT_NUMBERS.len() as u64, self.seeds[*si].name, String::from_utf8_lossy(&self.seeds[*si].bytes[*a..*b]));
                 }
             }
         }
-        self.n_textnum = self.num_runs.len() as u64 * TEXT_NUMBERS.len() as u64;
         if std::env::var_os("VERIF_C02_SEEDS").is_some() {
             for s in &self.seeds {
                 eprintln!("seed {} api={} ext={} len={}", s.name, s.api, s.ext, s.bytes.len());
